@@ -19,12 +19,12 @@ ASSUMPTIONS = [
     "ValueError('all capacities 0') is an allowed outcome (unreachable under capacity > 0)",
 ]
 BOUNDS = {
-    "quick": "shapes (groups x batteries x inverters): 1x1x1, 1x1x2, 1x2x1 both directions, 2x(1x1) consume; exponent 1; manager-level accounting for 1 group; "
+    "quick": "shapes (groups x batteries x inverters): 1x1x1, 1x1x2, 1x2x1 both directions, 2x(1x1) consume; exponent 1 (exponents 0 and 2 for 1 group); manager-level accounting for 1 group; "
              "2 groups x 2 inverters with non-binding battery limits (budgeted 100 s, not exhaustive)",
     "thorough": "quick + 2x(1x1) supply, exponents 0 and 2, (1x1 | 1x2), (1x2 | 1x1) mixed shapes, 3x(1x1) budgeted",
 }
 OUTSIDE = "more groups/batteries/inverters than listed; non-integer distribution exponents; IEEE rounding"
-BUDGET = {"quick": 600, "thorough": 3600}
+BUDGET = {"quick": 900, "thorough": 1800}
 
 
 from harness.c15 import make_battery_full as make_manager  # noqa: E402,F401  (manager-level accounting of the same distribution)
@@ -65,6 +65,9 @@ def instances(tier):
         I("reach:1x1x1", "make", (s11, 1.0, 1, True), "reachability twin", budget_s=60, incremental=False, validate_every=0),
         I("1x1x1+", "make", (s11, 1.0, 1), "1 group, 1 battery, 1 inverter, consume", budget_s=120, **kw),
         I("1x1x1-", "make", (s11, 1.0, -1), "same, supply", budget_s=120, **kw),
+        I("1x1x1+e0", "make", (s11, 0.0, 1), "same, distributor exponent 0", budget_s=120, **kw),
+        I("1x1x1-e2", "make", (s11, 2.0, -1), "same, supply, distributor exponent 2", budget_s=120, **kw),
+        I("1x2x1+e0", "make", (s21, 0.0, 1), "2 batteries behind 1 inverter, exponent 0", budget_s=200, **kw),
         I("1x1x2+", "make", (s12, 1.0, 1), "1 battery behind 2 inverters, consume", budget_s=200, **kw),
         I("1x1x2-", "make", (s12, 1.0, -1), "1 battery behind 2 inverters, supply", budget_s=200, **kw),
         I("1x2x1+", "make", (s21, 1.0, 1), "2 batteries behind 1 inverter, consume", budget_s=200, **kw),
@@ -80,12 +83,12 @@ def instances(tier):
         return out
     kw["dump_queries"] = 10
     out += [
-        I("1x2x1-", "make", (s21, 1.0, -1), "2 batteries behind 1 inverter, supply", budget_s=300, **kw),
-        I("2x(1x1)-", "make", (((1, 1), (1, 1)), 1.0, -1), "2 groups, supply", budget_s=600, **kw),
-        I("2x(1x1)+e0", "make", (((1, 1), (1, 1)), 0.0, 1), "2 groups, exponent 0", budget_s=600, **kw),
-        I("2x(1x1)+e2", "make", (((1, 1), (1, 1)), 2.0, 1), "2 groups, exponent 2", budget_s=900, exhaustive=False, **kw),
-        I("(1x1|1x2)+", "make", (((1, 1), (1, 2)), 1.0, 1), "mixed shapes (budgeted)", budget_s=900, exhaustive=False, **kw),
-        I("(2x1|1x1)+", "make", (((2, 1), (1, 1)), 1.0, 1), "mixed shapes (budgeted)", budget_s=900, exhaustive=False, **kw),
-        I("3x(1x1)+", "make", (((1, 1), (1, 1), (1, 1)), 1.0, 1), "3 groups (budgeted)", budget_s=900, exhaustive=False, **kw),
+        I("1x2x1-", "make", (s21, 1.0, -1), "2 batteries behind 1 inverter, supply", budget_s=200, **kw),
+        I("2x(1x1)-", "make", (((1, 1), (1, 1)), 1.0, -1), "2 groups, supply", budget_s=400, **kw),
+        I("2x(1x1)+e0", "make", (((1, 1), (1, 1)), 0.0, 1), "2 groups, exponent 0", budget_s=300, **kw),
+        I("2x(1x1)+e2", "make", (((1, 1), (1, 1)), 2.0, 1), "2 groups, exponent 2", budget_s=250, exhaustive=False, **kw),
+        I("(1x1|1x2)+", "make", (((1, 1), (1, 2)), 1.0, 1), "mixed shapes (budgeted)", budget_s=200, exhaustive=False, **kw),
+        I("(2x1|1x1)+", "make", (((2, 1), (1, 1)), 1.0, 1), "mixed shapes (budgeted)", budget_s=200, exhaustive=False, **kw),
+        I("3x(1x1)+", "make", (((1, 1), (1, 1), (1, 1)), 1.0, 1), "3 groups (budgeted)", budget_s=250, exhaustive=False, **kw),
     ]
     return out
